@@ -368,6 +368,9 @@ func c20Round(c *c20Case, dir string) error {
 func runC20(cfg *config) error {
 	cs := newCaseSet("c20")
 	rounds := 3 * cfg.scale
+	if cfg.tier == "thorough" && rounds > 12 {
+		rounds = 12 // each thorough round is 24 writers x 120 requests under the race detector (1-2 min)
+	}
 	if cfg.replay != "" {
 		rounds = 1
 	}
